@@ -39,44 +39,79 @@ def guardDrop (l : Lock) (guardPanicking threadPanicking isCanceled : Bool) : Lo
 
 /-! ### 2. actors and locks -/
 
-inductive LPc | free | l1 (m : Nat) | k1 (m : Nat)
+inductive LPc
+  | free
+  | l1 (m : Nat)                   -- `lock()` / `write()` / `try_*` in progress: waits for the grant, then builds the guard
+  | r1 (m : Nat)                   -- `read()` in progress
+  | k1 (m : Nat)                   -- `is_poisoned()`
+  | d1 (m : Nat) (dn : Bool)       -- a guard drop by an unwind is half done; `dn`: its `poison.done` sets the flag
   deriving DecidableEq, Repr
 
 inductive LEnv
-  | lock (m : Nat)                 -- `lock()` / `write()` of a free lock
-  | unlock (m : Nat)               -- a guard dropped by normal control flow
-  | unwind (isCanceled : Bool)     -- the innermost guard dropped by an unwind (panic or cancellation)
+  | lock (m : Nat)                 -- `lock()` / `write()` (also the polling `try_lock` / `try_write`)
+  | rlock (m : Nat)                -- `read()` / polling `try_read`
+  | unlock (m : Nat)               -- an exclusive guard dropped by normal control flow
+  | runlock (m : Nat)              -- a read guard dropped by normal control flow
+  | unwind (isCanceled : Bool)     -- the innermost exclusive guard dropped by an unwind (panic or cancellation): first half
   | chk (m : Nat)                  -- `is_poisoned()`
   | go
   deriving DecidableEq, Repr
 
 structure LSh where
-  held : Nat → Option Nat
+  /-- the order of the two halves of `Drop for MutexGuard / RwLockWriteGuard`: false = the code (`poison.done(..)` then
+      `unlock()`), true = the reverse (seeded change C13_a; only `poison_handover_swapped_witness` is about it) -/
+  swapped : Bool
+  held : Nat → Option Nat          -- exclusive holder
+  rd : Nat → Nat                   -- read guards out
   poi : Nat → Bool                 -- `Flag.failed != 0`
-  hl : Nat → List Nat              -- the guards an actor holds, innermost first
-  gp : Nat → Bool                  -- `guard.panicking` of the lock's current guard
-  -- ghost: a guard of this lock was dropped by a panic that began inside the guard, in a coroutine that was not cancelled
-  pin : Nat → Bool
+  hl : Nat → List Nat              -- the exclusive guards an actor holds, innermost first
+  rl : Nat → List Nat              -- the read guards an actor holds
+  gp : Nat → Bool                  -- `guard.panicking` of the lock's current exclusive guard
+  -- ghost
+  pin : Nat → Bool                 -- a guard of this lock was dropped by a panic that began inside it, coroutine not cancelled
+  rel : Nat → Bool                 -- ... and that drop has released the lock
+  cleanAfter : Nat → Bool          -- a grant that followed such a release has seen `failed = false`
+
+/-- the grant of a lock (exclusive or shared) reads the flag when it builds its guard -/
+def sawClean (sh : LSh) (m : Nat) : Bool := sh.cleanAfter m || (sh.rel m && !sh.poi m)
 
 /-- `tp`: `thread::panicking()` as the actor sees it now -/
 def ltstep (sh : LSh) (me : Nat) (tp : Bool) : LPc → LEnv → Option (LSh × LPc)
-  | .free, .lock m => if sh.held m = none then some (sh, .l1 m) else none
-  | .l1 m, _ =>        -- the guard is built: `poison.borrow()` reads the flag
+  | .free, .lock m => some (sh, .l1 m)
+  | .free, .rlock m => some (sh, .r1 m)
+  | .l1 m, _ =>        -- granted (nobody holds it), the guard is built: `poison.borrow()` reads the flag
+      if sh.held m = none ∧ sh.rd m = 0 then
+        some ({ sh with held := upd sh.held m (some me), hl := upd sh.hl me (m :: sh.hl me), gp := upd sh.gp m (flagBorrow tp),
+                        cleanAfter := upd sh.cleanAfter m (sawClean sh m) }, .free)
+      else none
+  | .r1 m, _ =>
       if sh.held m = none then
-        some ({ sh with held := upd sh.held m (some me), hl := upd sh.hl me (m :: sh.hl me), gp := upd sh.gp m (flagBorrow tp) }, .free)
+        some ({ sh with rd := upd sh.rd m (sh.rd m + 1), rl := upd sh.rl me (m :: sh.rl me),
+                        cleanAfter := upd sh.cleanAfter m (sawClean sh m) }, .free)
       else none
   | .free, .unlock m =>
       if m ∈ sh.hl me then
         some ({ sh with held := upd sh.held m none, hl := upd sh.hl me ((sh.hl me).erase m),
                         poi := upd sh.poi m (sh.poi m || flagDone (sh.gp m) false false) }, .free)
       else none
+  | .free, .runlock m =>
+      if m ∈ sh.rl me then
+        some ({ sh with rd := upd sh.rd m (sh.rd m - 1), rl := upd sh.rl me ((sh.rl me).erase m) }, .free)
+      else none
   | .free, .unwind ic =>
       match sh.hl me with
       | [] => none
       | m :: r =>
-        some ({ sh with held := upd sh.held m none, hl := upd sh.hl me r,
-                        poi := upd sh.poi m (sh.poi m || flagDone (sh.gp m) true ic),
-                        pin := upd sh.pin m (sh.pin m || (!sh.gp m && !ic)) }, .free)
+        let dn := flagDone (sh.gp m) true ic
+        if sh.swapped then            -- `unlock()` first
+          some ({ sh with held := upd sh.held m none, hl := upd sh.hl me r, rel := upd sh.rel m (sh.rel m || dn) }, .d1 m dn)
+        else                          -- `poison.done(&guard)` first
+          some ({ sh with poi := upd sh.poi m (sh.poi m || dn), pin := upd sh.pin m (sh.pin m || (!sh.gp m && !ic)) }, .d1 m dn)
+  | .d1 m dn, _ =>
+      if sh.swapped then
+        some ({ sh with poi := upd sh.poi m (sh.poi m || dn), pin := upd sh.pin m (sh.pin m || dn) }, .free)
+      else
+        some ({ sh with held := upd sh.held m none, hl := upd sh.hl me ((sh.hl me).erase m), rel := upd sh.rel m (sh.rel m || dn) }, .free)
   | .free, .chk m => some (sh, .k1 m)
   | .k1 _, _ => some (sh, .free)
   | .free, .go => none
@@ -91,14 +126,23 @@ def lstep (s : LSt) (t : Nat) (tp : Bool) (e : LEnv) : Option LSt :=
   | none => none
   | some (sh', pc') => some ⟨sh', upd s.pcs t pc'⟩
 
-def linit : LSt :=
-  ⟨{ held := fun _ => none, poi := fun _ => false, hl := fun _ => [], gp := fun _ => false, pin := fun _ => false }, fun _ => .free⟩
+def linitWith (swapped : Bool) : LSt :=
+  ⟨{ swapped := swapped, held := fun _ => none, rd := fun _ => 0, poi := fun _ => false, hl := fun _ => [], rl := fun _ => [],
+     gp := fun _ => false, pin := fun _ => false, rel := fun _ => false, cleanAfter := fun _ => false }, fun _ => .free⟩
+
+/-- the code: `poison.done` before `unlock` -/
+def linit : LSt := linitWith false
 
 def lrun (s : LSt) : List (Nat × Bool × LEnv) → LSt
   | [] => s
   | (t, tp, e) :: r => match lstep s t tp e with
     | some s' => lrun s' r
     | none => lrun s r
+
+/-- a schedule with a waiter: coroutine 2 takes lock 3, actor 4 calls `lock()` and waits, 2 panics inside the guard and
+    its drop does its first half, 4 tries to go on (it can only if that half released the lock), 2 does the second half -/
+def handoverSched : List (Nat × Bool × LEnv) :=
+  [(2, false, .lock 3), (2, false, .go), (4, false, .lock 3), (2, true, .unwind false), (4, false, .go), (2, true, .go)]
 
 /-! ### 3. `run_coroutine` on a worker -/
 
@@ -117,7 +161,12 @@ inductive WPc
 structure W where
   pc : WPc
   ending : Ending        -- what the body will do (chosen by the environment)
-  generr : Option Nat    -- `context.err` of the generator (set by its catch_unwind)
+  generr : Option Nat    -- `context.err` of the generator (set by its catch_unwind); it lives in the stack's generator,
+                         -- is written by a panic other than `Error::Cancel`, emptied by `get_panic_data()` only
+  taken : Option Nat     -- what `get_panic_data()` returned
+  handle : Bool          -- a JoinHandle of the coroutine still exists when it ends
+  lazy : Bool            -- false = the code; true = `get_panic_data` skipped when no JoinHandle is left (seeded change
+                         -- C13_b; only `detached_panic_payload_leaks` is about it)
   packet : Option Nat
   pslot : Option Nat     -- the Join's panic slot
   running : Bool         -- `Join.state`
@@ -137,14 +186,16 @@ def wstep (w : W) : Option W :=
       match w.ending with
       | .normal _ => some { w with pc := .c1 }
       | .panic p => some { w with pc := .n0, generr := some p }      -- caught by the generator, `resume()` returns None
-      | .cancel => some { w with pc := .n0, generr := none }         -- `Error::Cancel` is filtered: no panic data
+      | .cancel => some { w with pc := .n0 }                         -- `Error::Cancel` is filtered: `context.err` is not written
   | .c1 => (match w.ending with | .normal v => some { w with pc := .c2, packet := some v } | _ => none)
   | .c2 => some { w with pc := .c3, running := false }
   | .c3 => some { w with pc := .d0, waiter := false, woken := if w.waiter then w.woken + 1 else w.woken }
-  | .n0 => (match w.generr with
-      | some _ => some { w with pc := .n1, generr := none }                      -- `get_panic_data()` takes it ...
-      | none => some { w with pc := .n2 })
-  | .n1 => (match w.ending with | .panic p => some { w with pc := .n2, pslot := some p } | _ => none)    -- ... `set_panic_data`
+  | .n0 =>
+      if w.lazy && !w.handle then some { w with pc := .n2 }                       -- (variant) nobody will ask: leave it
+      else (match w.generr with
+        | some p => some { w with pc := .n1, generr := none, taken := some p }   -- `get_panic_data()` takes it ...
+        | none => some { w with pc := .n2 })
+  | .n1 => some { w with pc := .n2, pslot := w.taken }                           -- ... `set_panic_data`
   | .n2 => some { w with pc := .n3, running := false }
   | .n3 => some { w with pc := .d0, waiter := false, woken := if w.waiter then w.woken + 1 else w.woken }
   | .d0 => some { w with pc := .d1, localAlive := false, frees := w.frees + 1 }
@@ -158,8 +209,26 @@ def wrun : Nat → W → W
 
 /-- the worker picked a coroutine (whose local data is alive, whose Join is still `running`) and resumes it -/
 def wstart (pool cap ran woken : Nat) (waiter : Bool) (e : Ending) : W :=
-  { pc := .resumed, ending := e, generr := none, packet := none, pslot := none, running := true, waiter := waiter,
-    woken := woken, localAlive := true, frees := 0, pool := pool, cap := cap, ran := ran }
+  { pc := .resumed, ending := e, generr := none, taken := none, handle := true, lazy := false, packet := none, pslot := none,
+    running := true, waiter := waiter, woken := woken, localAlive := true, frees := 0, pool := pool, cap := cap, ran := ran }
+
+/-- the next coroutine that gets the same stack from the pool: a new closure, Join, packet and local data; the generator
+    (with its `context.err`) is the one of the stack -/
+def wnext (w : W) (e : Ending) (handle : Bool) : W :=
+  { w with pc := .resumed, ending := e, handle := handle, taken := none, packet := none, pslot := none, running := true,
+           waiter := false, localAlive := true, frees := 0 }
+
+/-- a history of one stack: coroutines (ending, JoinHandle still there?) that run on it one after the other -/
+def wseq (w : W) : List (Ending × Bool) → W
+  | [] => w
+  | (e, h) :: r => wseq (wrun 8 (wnext w e h)) r
+
+/-- the variant of `run_coroutine` that leaves the payload in the generator when no JoinHandle is left -/
+def wlazy (w : W) : W := { w with lazy := true }
+
+def ownPayload : Ending → Option Nat
+  | .panic p => some p
+  | _ => none
 
 /-- what the worker loop itself depends on afterwards -/
 structure WView where
